@@ -11,6 +11,10 @@ CHECKS["C11"]=dict(level="model_checking", ref="§C11",
    technique="explicit-state search over all partitions of elapsed time into tape steps 0..16 on the real Tap, decomposed at reload events, judged by an independent pulse decoder",
    text="For each tape image every reachable state of the real tape state machine under every partition of time into process_clocks steps of 0..16 T is visited (tens of millions of states per run); on every edge transition the pulse must be the one the reference waveform expects and last between nominal and nominal+32 T, and the pulse list must decode (independent decoder) to exactly the TAP blocks with the stated pilot counts. Exhaustive over schedules for the listed tapes; tapes themselves are a small alphabet.",
    note="Trusts hook H3 (Tap: Clone + verif_state). Decomposition at reload events is re-validated on every exit transition (state must equal the pre-pass state).")
+CHECKS["C12"]=dict(level="model_checking", ref="§C12",
+   technique="explicit-state BFS over command histories on the real Tap in lock step with a reference deck (refinement mapping to the uninterrupted tape)",
+   text="All histories of up to 4 (quick) / 5 (thorough) commands from {stop, play, rewind-while-stopped}, issued at every T-state position inside the listed windows of the waveform (start, first pilot pulses, pilot-sync-first byte, last bits, pause head and tail, next pilot, end of tape, after the end), from a playing and a cold deck; after every action the complete tape state except prev_state must equal the uninterrupted tape's state at the reference deck position, and stopped time must change nothing. Dedup on the complete state including prev_state.",
+   note="Refinement target is the C11-verified uninterrupted chain. Not judged: rewind while playing. Trusts hook H3.")
 NOT_YET = {
 }
 def main():
